@@ -101,7 +101,17 @@ pub fn long_docs(format: &str) -> Vec<Doc> {
     let mut bad = d.clone();
     let k = bad.len() * 2 / 3;
     bad[k] = 0xff;
-    vec![Doc::new(format!("^{format}:long"), d), Doc::new(format!("^{format}:long-corrupted"), bad)]
+    // one very long symbol name and one very long comment line, each followed by more
+    let head: &[u8] = if format == "aag" { b"aag 1 1 0 1 0\n2\n2\n" } else { b"aig 1 1 0 1 0\n2\n" };
+    let mut long_name = head.to_vec();
+    long_name.extend_from_slice(b"i0 ");
+    long_name.extend(std::iter::repeat(b'n').take(100_000));
+    long_name.extend_from_slice(b"\no0 out\nc\nshort comment\n");
+    let mut long_comment = head.to_vec();
+    long_comment.extend_from_slice(b"i0 in\nc\n");
+    long_comment.extend(std::iter::repeat(b'c').take(100_000));
+    long_comment.extend_from_slice(b"\nlast line\n");
+    vec![Doc::new(format!("^{format}:long"), d), Doc::new(format!("^{format}:long-corrupted"), bad), Doc::new(format!("^{format}:long-symbol-name"), long_name), Doc::new(format!("^{format}:long-comment-line"), long_comment)]
 }
 
 pub struct Inputs {
